@@ -14,7 +14,9 @@ func init() { register("C10", runC10) }
 
 type lockerInfo struct {
 	Lock, Unlock *ssa.Function
-	Open         ssa.CallInstruction
+	OpenFn       *ssa.Function       // the function containing the exclusive create (Lock itself or a helper of it)
+	Open         ssa.CallInstruction // the exclusive create
+	OpenSite     ssa.CallInstruction // the site in Lock that leads to it
 	PathField    engine.FieldKey
 }
 
@@ -40,6 +42,20 @@ func findLocker(c *Check, rule string) *lockerInfo {
 		c.Unknown(rule, "anchor/lock-acquire", "anchor-unresolved: no method in internal/locking opens a path held in a struct field", "-")
 		return nil
 	}
+	// the acquire method is the top of the chain of in-package callers (the create may sit in a helper)
+	li.OpenFn, li.OpenSite = li.Lock, li.Open
+	for hop := 0; hop < 3; hop++ {
+		var callers []ssa.CallInstruction
+		for _, cs := range c.G.CallersOf(li.Lock) {
+			if engine.InPackage(cs.Parent(), "locking") && cs.Parent() != li.Lock {
+				callers = append(callers, cs)
+			}
+		}
+		if len(callers) != 1 {
+			break
+		}
+		li.Lock, li.OpenSite = callers[0].Parent(), callers[0]
+	}
 	for _, fn := range c.P.Funcs {
 		if engine.InPackage(fn, "locking") && fn != li.Lock && fn.Signature.Recv() != nil && len(removesOf(fn, li.PathField)) > 0 {
 			li.Unlock = fn
@@ -53,8 +69,28 @@ func findLocker(c *Check, rule string) *lockerInfo {
 }
 
 func removesOf(fn *ssa.Function, pathField engine.FieldKey) []ssa.CallInstruction {
-	return engine.Calls(fn, func(s ssa.CallInstruction) bool {
+	direct := func(s ssa.CallInstruction) bool {
 		return engine.CalleeName(s) == "os.Remove" && isLoadOfField(s.Common().Args[0], pathField)
+	}
+	return engine.Calls(fn, func(s ssa.CallInstruction) bool {
+		if direct(s) {
+			return true
+		}
+		// a helper of the same package that removes the path on every path to its return
+		call, ok := s.(*ssa.Call)
+		if !ok {
+			return false
+		}
+		h := call.Call.StaticCallee()
+		if h == nil || len(h.Blocks) == 0 || h.Pkg != fn.Pkg || len(engine.Calls(h, direct)) == 0 {
+			return false
+		}
+		isRet := func(in ssa.Instruction) bool { _, r := in.(*ssa.Return); return r && in.Parent() == h }
+		skip, _ := engine.PathExists(h, nil, isRet, engine.PathQuery{Shallow: true, CutInstr: func(in ssa.Instruction) bool {
+			cs, ok := in.(ssa.CallInstruction)
+			return ok && direct(cs)
+		}})
+		return !skip
 	})
 }
 
@@ -85,7 +121,7 @@ func ruleR10a(c *Check, li *lockerInfo) {
 	c.Require(okFlags, "R10a", "exclusive-create/"+fname, "the lock file is created with O_CREATE|O_EXCL", "the lock file is opened without O_CREATE|O_EXCL: two processes can both 'acquire' the lock", c.P.InstrPos(li.Open))
 	// success only via successful open / write
 	var writes []ssa.CallInstruction
-	for _, s := range callsNamed(li.Lock, "(*os.File).Write", "(*os.File).WriteString") {
+	for _, s := range callsNamed(li.OpenFn, "(*os.File).Write", "(*os.File).WriteString") {
 		if engine.OriginsAllFromCall(s.Common().Args[0], map[ssa.CallInstruction]int{li.Open: 0}, false) {
 			writes = append(writes, s)
 		}
@@ -108,57 +144,89 @@ func classifyRemovals(c *Check, li *lockerInfo) map[string][]ssa.CallInstruction
 			out["cleanup"] = append(out["cleanup"], rm)
 			continue
 		}
-		class := "unclassified"
-		tests := []struct {
-			name string
-			pred func(a engine.Atom) bool
-		}{
-			{"unreadable", func(a engine.Atom) bool {
-				if a.Op != "nonnil" {
-					return false
+		tests := staleTests(c)
+		all := func(a engine.Atom) bool {
+			for _, t := range tests {
+				if t.pred(a) {
+					return true
 				}
-				for _, o := range engine.Origins(a.V) {
-					if call, _ := engine.CallOf(o); call != nil && (engine.CalleeName(call) == "os.ReadFile" || engine.CalleeName(call) == "io.ReadAll") {
-						return true
-					}
-				}
-				return false
-			}},
-			{"unparsable", func(a engine.Atom) bool {
-				if a.Op != "nonnil" {
-					return false
-				}
-				for _, o := range engine.Origins(a.V) {
-					if call, _ := engine.CallOf(o); call != nil && strings.HasPrefix(engine.CalleeName(call), "strconv.") {
-						return true
-					}
-				}
-				return false
-			}},
-			{"dead-pid", func(a engine.Atom) bool {
-				if a.Op != "false" {
-					return false
-				}
-				call, _ := engine.CallOf(a.V)
-				if call == nil {
-					return false
-				}
-				for _, f := range c.G.Callees[call] {
-					if engine.InPackage(f, "locking") && len(callsNamed(f, "os.FindProcess")) > 0 {
-						return true
-					}
-				}
-				return false
-			}},
+			}
+			return false
 		}
+		// the removal must be reachable only when one of the stale conditions holds ...
+		if r, _ := engine.PathExists(fn, nil, engine.IsInstr(rm), engine.PathQuery{CutEdge: engine.CutEdgesWhere(all)}); r {
+			out["unclassified"] = append(out["unclassified"], rm)
+			continue
+		}
+		// ... and it recovers class X when X alone suffices to reach it (the other classes' edges cut)
+		n := 0
 		for _, t := range tests {
-			if r, _ := engine.PathExists(fn, nil, engine.IsInstr(rm), engine.PathQuery{CutEdge: engine.CutEdgesWhere(t.pred)}); !r {
-				class = t.name
+			others := func(a engine.Atom) bool {
+				for _, o := range tests {
+					if o.name != t.name && o.pred(a) {
+						return true
+					}
+				}
+				return false
+			}
+			if r, _ := engine.PathExists(fn, nil, engine.IsInstr(rm), engine.PathQuery{CutEdge: engine.CutEdgesWhere(others)}); r {
+				out[t.name] = append(out[t.name], rm)
+				n++
 			}
 		}
-		out[class] = append(out[class], rm)
+		if n == 0 {
+			out["unclassified"] = append(out["unclassified"], rm)
+		}
 	}
 	return out
+}
+
+type staleTest struct {
+	name string
+	pred func(a engine.Atom) bool
+}
+
+// staleTests: the branch facts that mean "no live holder".
+func staleTests(c *Check) []staleTest {
+	return []staleTest{
+		{"unreadable", func(a engine.Atom) bool {
+			if a.Op != "nonnil" {
+				return false
+			}
+			for _, o := range engine.Origins(a.V) {
+				if call, _ := engine.CallOf(o); call != nil && (engine.CalleeName(call) == "os.ReadFile" || engine.CalleeName(call) == "io.ReadAll") {
+					return true
+				}
+			}
+			return false
+		}},
+		{"unparsable", func(a engine.Atom) bool {
+			if a.Op != "nonnil" {
+				return false
+			}
+			for _, o := range engine.Origins(a.V) {
+				if call, _ := engine.CallOf(o); call != nil && strings.HasPrefix(engine.CalleeName(call), "strconv.") {
+					return true
+				}
+			}
+			return false
+		}},
+		{"dead-pid", func(a engine.Atom) bool {
+			if a.Op != "false" {
+				return false
+			}
+			call, _ := engine.CallOf(a.V)
+			if call == nil {
+				return false
+			}
+			for _, f := range c.G.Callees[call] {
+				if engine.InPackage(f, "locking") && len(callsNamed(f, "os.FindProcess")) > 0 {
+					return true
+				}
+			}
+			return false
+		}},
+	}
 }
 
 func ruleR10b(c *Check, li *lockerInfo, rule string, reportCheckThenAct bool) {
@@ -204,7 +272,7 @@ func ruleR10b(c *Check, li *lockerInfo, rule string, reportCheckThenAct bool) {
 		}
 	}
 	// waiting is allowed only with evidence of a live holder
-	if lp := engine.LoopOf(li.Open); lp != nil {
+	if lp := engine.LoopOf(li.OpenSite); lp != nil {
 		alive := engine.CutEdgesWhere(func(a engine.Atom) bool {
 			if a.Op != "true" {
 				return false
@@ -249,7 +317,7 @@ func ruleR10b(c *Check, li *lockerInfo, rule string, reportCheckThenAct bool) {
 				}
 			}
 		}
-		c.Require(bad == "", rule, "wait-only-for-live-holder/"+fname, "every wait in the acquire loop is dominated by the liveness probe answering 'alive'", bad, c.P.InstrPos(li.Open))
+		c.Require(bad == "", rule, "wait-only-for-live-holder/"+fname, "every wait in the acquire loop is dominated by the liveness probe answering 'alive'", bad, c.P.InstrPos(li.OpenSite))
 	}
 	if n := len(classes["unclassified"]); n > 0 {
 		c.Unknown(rule, "stale-removal/unclassified/"+fname, fmt.Sprintf("%d removal(s) of the lock path inside the acquire loop are guarded by a condition the rule does not recognise", n), c.P.InstrPos(classes["unclassified"][0]))
